@@ -190,9 +190,9 @@ func cmdCheck(args []string) int {
 	total, discharged, violations := 0, 0, 0
 	byClass := map[string]int{}
 	byBackend := map[string]int{}
-	var samples []map[string]any
-	var knownHit []string
-	var fnames []string
+	samples := []map[string]any{}
+	knownHit := []string{}
+	fnames := []string{}
 	trusted := map[string]bool{}
 	inlined := map[string]bool{}
 	specsUsed := map[string]bool{}
@@ -271,17 +271,17 @@ func cmdCheck(args []string) int {
 		*prop, *tier, total, discharged, len(knownHit), violations, len(vcs)-nLemmas, nLemmas, kept, cands, wall)
 
 	if !*noEvidence {
-		var tb []string
+		tb := []string{}
 		for d := range trusted {
 			tb = append(tb, d)
 		}
 		sort.Strings(tb)
-		var inl []string
+		inl := []string{}
 		for d := range inlined {
 			inl = append(inl, d)
 		}
 		sort.Strings(inl)
-		var su []string
+		su := []string{}
 		for d := range specsUsed {
 			su = append(su, d)
 		}
